@@ -14,6 +14,21 @@
 (* FALSE it is a load followed by a store (a plain size_t counter): the       *)
 (* NEGATIVE CONTROL, which TLC must refute.                                   *)
 (*                                                                            *)
+(* The law the observers rest on when a history's steps are performed by      *)
+(* DIFFERENT threads with a hand-over in between (implied by the statement    *)
+(* for synchronised histories - an observable's notification drawn on thread  *)
+(* A after an observer's stamp was drawn on thread B must compare as later):  *)
+(*   HappensBeforeOrdered   if draw A is complete before draw B begins (any   *)
+(*                          threads), value(A) < value(B)                     *)
+(* In this interleaving model "complete before it begins" is the order of     *)
+(* steps; on the real code it is only known at synchronisation points, which  *)
+(* is where StampsRelayTrace checks it - never for free-running draws.        *)
+(* Block > 1 is a second NEGATIVE CONTROL: every thread takes Block values at *)
+(* once from the shared counter and hands them out locally.  It keeps Unique  *)
+(* and IncreasingPerThread (TLC confirms) and TLC must refute                 *)
+(* HappensBeforeOrdered for it.  Block = 1 is the fetch-and-add of            *)
+(* TimeStamp.cpp.                                                             *)
+(*                                                                            *)
 (* Each thread owns one stamp `mine` (created, then renewed) and one copy     *)
 (* `dup` of it (copy-constructed again and again).  got[t] is the sequence of *)
 (* values thread t's stamp carried after a creation / renewal, in program     *)
@@ -22,7 +37,8 @@ EXTENDS Integers, Sequences, FiniteSets, TLC
 
 CONSTANTS Threads,   \* thread ids
           MaxOps,    \* operations per thread
-          Atomic     \* TRUE: fetch-and-add; FALSE: load, then store
+          Atomic,    \* TRUE: fetch-and-add; FALSE: load, then store
+          Block      \* values a thread takes from the shared counter at once (1: TimeStamp.cpp; > 1: negative control)
 
 NoStamp == -1
 
@@ -33,8 +49,12 @@ VARIABLES g,         \* TimeStamp::global
           dup,       \* dup[t]: value of thread t's latest copy (NoStamp if none)
           got,       \* got[t]: values obtained by creation / renewal, in program order
           copylog,   \* copylog[t]: <<value of the source when copied, value of the copy>>
-          ops        \* ops[t]: operations started
-vars == <<g, pc, tmp, mine, dup, got, copylog, ops>>
+          ops,       \* ops[t]: operations started
+          nxt, bend, \* nxt[t] / bend[t]: next value and end of thread t's block (Block = 1: always equal before a draw)
+          order,     \* ghost: the completed creations / renewals of all threads in the order of their completion:
+                     \*        [t, v, since] with since = number of entries of `order` when the draw began
+          began      \* ghost: began[t] = Len(order) when thread t's running (split) draw began
+vars == <<g, pc, tmp, mine, dup, got, copylog, ops, nxt, bend, order, began>>
 
 Init ==
   /\ g = 0
@@ -42,26 +62,34 @@ Init ==
   /\ mine = [t \in Threads |-> NoStamp] /\ dup = [t \in Threads |-> NoStamp]
   /\ got = [t \in Threads |-> <<>>] /\ copylog = [t \in Threads |-> <<>>]
   /\ ops = [t \in Threads |-> 0]
+  /\ nxt = [t \in Threads |-> 0] /\ bend = [t \in Threads |-> 0]
+  /\ order = <<>> /\ began = [t \in Threads |-> 0]
 
 \* effect of having drawn value v for operation `what`
-Deliver(t, what, v) ==
+\* (the draw began when `order` had `since` entries)
+Deliver(t, what, v, since) ==
   IF what = "fresh"
     THEN /\ mine' = [mine EXCEPT ![t] = v]                       \* TimeStamp() / renew()
          /\ got' = [got EXCEPT ![t] = Append(@, v)]
+         /\ order' = Append(order, [t |-> t, v |-> v, since |-> since])
          /\ UNCHANGED <<dup, copylog>>
     ELSE /\ dup' = [dup EXCEPT ![t] = mine[t]]                   \* copy constructor: v is overwritten by the source's value
          /\ copylog' = [copylog EXCEPT ![t] = Append(@, <<mine[t], mine[t]>>)]
-         /\ UNCHANGED <<mine, got>>
+         /\ UNCHANGED <<mine, got, order>>
 
 CanStart(t, what) == pc[t] = "idle" /\ ops[t] < MaxOps /\ (what = "copy" => mine[t] # NoStamp)
 
-\* global++ as one atomic read-modify-write
+\* global++ as one atomic read-modify-write (Block = 1); Block > 1: global.fetch_add(Block) when the thread's block is used up
 FetchAdd(t, what) ==
   /\ Atomic /\ CanStart(t, what)
-  /\ g' = g + 1
-  /\ Deliver(t, what, g)
+  /\ LET refill == nxt[t] = bend[t]
+         v == IF refill THEN g ELSE nxt[t]
+     IN /\ g' = IF refill THEN g + Block ELSE g
+        /\ bend' = [bend EXCEPT ![t] = IF refill THEN g + Block ELSE @]
+        /\ nxt' = [nxt EXCEPT ![t] = v + 1]
+        /\ Deliver(t, what, v, Len(order))
   /\ ops' = [ops EXCEPT ![t] = @ + 1]
-  /\ UNCHANGED <<pc, tmp>>
+  /\ UNCHANGED <<pc, tmp, began>>
 
 \* global++ as load ; store
 Load(t, what) ==
@@ -69,14 +97,15 @@ Load(t, what) ==
   /\ tmp' = [tmp EXCEPT ![t] = g]
   /\ pc' = [pc EXCEPT ![t] = what]
   /\ ops' = [ops EXCEPT ![t] = @ + 1]
-  /\ UNCHANGED <<g, mine, dup, got, copylog>>
+  /\ began' = [began EXCEPT ![t] = Len(order)]
+  /\ UNCHANGED <<g, mine, dup, got, copylog, nxt, bend, order>>
 
 Store(t) ==
   /\ pc[t] # "idle"
   /\ g' = tmp[t] + 1
-  /\ Deliver(t, pc[t], tmp[t])
+  /\ Deliver(t, pc[t], tmp[t], began[t])
   /\ pc' = [pc EXCEPT ![t] = "idle"]
-  /\ UNCHANGED <<tmp, ops>>
+  /\ UNCHANGED <<tmp, ops, nxt, bend, began>>
 
 Next == \E t \in Threads : \/ \E what \in {"fresh", "copy"} : FetchAdd(t, what) \/ Load(t, what)
                            \/ Store(t)
@@ -99,6 +128,12 @@ IncreasingPerThread == \A t \in Threads : \A i, j \in DOMAIN got[t] : i < j => g
 CopiesCarry == \A t \in Threads :
                  /\ \A i \in DOMAIN copylog[t] : copylog[t][i][1] = copylog[t][i][2]
                  /\ dup[t] # NoStamp => dup[t] \in Range(got[t])
+
+\* a draw that is complete before another one begins - on whatever threads - carries the smaller value
+\* (what a hand-over between threads relies on: thread A draws, hands over, thread B draws => A's value < B's value)
+HappensBeforeOrdered == \A j \in DOMAIN order : \A i \in 1..order[j].since : order[i].v < order[j].v
+\* the ghost is complete: every value obtained is in `order`
+OrderComplete == Len(order) = Cardinality({<<t, i>> \in Threads \X (1..MaxOps) : i \in DOMAIN got[t]})
 
 \* why it holds for the atomic counter: everything handed out is below the counter
 BelowCounter == \A t \in Threads : \A i \in DOMAIN got[t] : got[t][i] < g
